@@ -1,0 +1,15 @@
+//go:build verif
+
+package kv
+
+// VerifPermute, when set by a verification harness, re-orders the list of
+// versions about to be merged at open time (after the built-in shuffle), so
+// that the merge order is an input of the harness instead of an unseeded
+// random choice. Only compiled with the "verif" build tag.
+var VerifPermute func(roots []string)
+
+func verifPermute(roots []string) {
+	if f := VerifPermute; f != nil {
+		f(roots)
+	}
+}
